@@ -628,6 +628,20 @@ func (endp *Endpoint) wrapErr(msgId string, mangleUTF8 bool, command string, err
 		res.Message = smtpErr.Message
 	}
 
+	// If an explicit marker (exterrors.WithTemporary) overrides the class of
+	// the SMTP code, the reply has to follow it: it is what the sender of
+	// the error meant and what the queue uses to decide about retries.
+	if exterrors.IsTemporary(err) != (res.Code/100 == 4) {
+		if res.Code/100 == 4 {
+			res.Code = 554
+		} else {
+			res.Code = 451
+		}
+		if res.EnhancedCode != smtp.EnhancedCodeNotSet {
+			res.EnhancedCode[0] = res.Code / 100
+		}
+	}
+
 	if msgId != "" {
 		res.Message += " (msg ID = " + msgId + ")"
 	}
